@@ -77,7 +77,7 @@ var queryToks = []string{
 	"=&", "&&", "a=1", "x y", ":", "@", "[", "]", "a=b=c", "&=", "=&=", "%20", "\"", "<", ">", "\\", "^", "`", "{", "}", "|", "http://e.vil/",
 }
 var fragToks = []string{"a", "top", "#", "?", "/", "//", "://", "%41", "%zz", "%", " ", "é", "\xff", "&", "=", "@", ":", "[", "]", "\"", "<", "\\", "^", "`", "!/bang", "a=b&c"}
-var soup = []string{"a", "b.c", ":", "80", "/", "/", "?", "?", "#", "#", "=", "&", "%41", "%2f", "%", "+", " ", "@", "@", "u", "[::1]", "[", "]", "x y", "..", ".", "é", ";", "//", "://", "%25", "[fe80::1%25en0]", "\\", "%c3%a9", "A", "%zz"}
+var soup = []string{"a", "b.c", ":", "80", "/", "/", "?", "?", "#", "#", "=", "&", "%41", "%2f", "%", "+", " ", "@", "@", "u", "[::1]", "[", "]", "x y", "..", ".", "é", ";", "//", "://", "%25", "[fe80::1%25en0]", "\\", "%c3%a9", "A", "%zz", "%3A", "%5B", "%5D", "%40", "%3A80"}
 
 func pick(r *rand.Rand, s []string) string { return s[r.Intn(len(s))] }
 
@@ -97,10 +97,94 @@ func cat(r *rand.Rand, toks []string, max int) string {
 
 var injections = []string{"?", "#", "@", "/", ":", "%", "[", "]", "//", " ", "\x00", "\n", "\x7f", "%25", "\\"}
 
+// Hosts with PERCENT-ENCODED DELIMITERS: ':' '[' ']' '@' '/' '?' '#' '%xx' written as
+// escapes inside the host. If Parse accepts such an authority the decoded host
+// contains the raw delimiter and FullURI()/RequestURI()+Host() must still re-parse
+// to the same components (today these are rejected at Parse: counted as rejected).
+var encHosts = []string{
+	"example.com%3Ax", "example.com%3A80", "example.com%3a80", "a%3A80%3A90", "a%3A", "%3A80", "a%3A80:90", "a:80%3A90", "a%3Ab%3Ac",
+	"a%5Bb", "ab%5D", "ab%5D:80", "%5B::1%5D", "%5B::1%5D:80", "[::1%5D", "%5B::1]", "[::1]%3A80", "[::1%5D]", "[%3A%3A1]", "[::1%3A2]",
+	"a%40b", "u%40example.com", "a%2Fb", "a%2fb", "a%3Fb", "a%3fq=1", "a%23b", "a%23", "a%5Cb",
+	"a%2541", "a%253A", "a%253a80", "%2525", "a%25%33%41", "a%2520b",
+	"a%20b", "a%21", "a%24b", "a%26b", "a%27", "a%28b%29", "a%2Ab", "a%2Bb", "a%2Cb", "a%3Bb", "a%3Db", "a%3Cb%3E", "a%22b", "a%7Eb", "a%2Db", "a%2Eb", "a%5Fb", "%41%42c", "a%30",
+	"A%3A80", "EXAMPLE.com%3AX", "é%3A80", "%C3%A9%3A80", "a%3A%C3%A9",
+}
+var hostAtoms = []string{
+	"a", "b", "example.com", "EX", ".", "-", "80", "0", ":", ":", "[", "]", "::1", "é", "%C3%A9", "%FF",
+	"%3A", "%3a", "%3A", "%5B", "%5b", "%5D", "%5d", "%40", "%2F", "%2f", "%3F", "%23", "%25", "%2541", "%253A", "%5C",
+	"%20", "%21", "%24", "%26", "%27", "%28", "%29", "%2A", "%2B", "%2C", "%3B", "%3D", "%3C", "%3E", "%22", "%41", "%7A", "%30",
+}
+
+func genEncHost(r *rand.Rand) string {
+	if r.Intn(2) == 0 {
+		return pick(r, encHosts)
+	}
+	var b strings.Builder
+	for i, n := 0, 1+r.Intn(5); i < n; i++ {
+		b.WriteString(pick(r, hostAtoms))
+	}
+	return b.String()
+}
+
+// authorityHasEncodedDelimiter: the host part of the authority of s contains an escaped ASCII byte.
+func authorityHasEncodedDelimiter(s string) bool {
+	i := strings.Index(s, "://")
+	if i < 0 {
+		return false
+	}
+	a := s[i+3:]
+	if j := strings.IndexAny(a, "/?#"); j >= 0 {
+		a = a[:j]
+	}
+	a = a[strings.LastIndexByte(a, '@')+1:]
+	for k := 0; k+2 < len(a); k++ {
+		if a[k] == '%' && a[k+1] >= '2' && a[k+1] <= '7' && a[k+1:k+3] != "25" {
+			return true // an escaped ASCII byte other than the zone introducer %25
+		}
+	}
+	return false
+}
+
+// genViaSetters builds the input through the URI setters (SetHost/SetHostBytes
+// take the host bytes as they are, only lower-casing them) and serialises it:
+// the result is one more family of absolute-URI inputs for Parse.
+func genViaSetters(r *rand.Rand) string {
+	var u fasthttp.URI
+	u.SetScheme(pick(r, schemes[:12]))
+	var h string
+	switch r.Intn(3) {
+	case 0:
+		h = pick(r, hosts)
+	default:
+		h = genEncHost(r)
+	}
+	if r.Intn(3) == 0 {
+		h += pick(r, ports)
+	}
+	if r.Intn(2) == 0 {
+		u.SetHost(h)
+	} else {
+		u.SetHostBytes([]byte(h))
+	}
+	if r.Intn(4) != 0 {
+		u.SetPath("/" + cat(r, pathToks, 5))
+	}
+	if r.Intn(2) == 0 {
+		u.SetQueryString(cat(r, queryToks, 5))
+	}
+	if r.Intn(3) == 0 {
+		u.SetHash(cat(r, fragToks, 3))
+	}
+	return u.String()
+}
+
 // genURI builds "scheme://…": either component-wise (userinfo, host, port, path,
 // query, fragment from hostile lists) or as a token soup; then, sometimes, one
 // separator is injected at a PRNG position (so '?', '#', '@' … appear in every position).
 func genURI(r *rand.Rand) string {
+	if r.Intn(12) == 0 {
+		return genViaSetters(r)
+	}
 	var b strings.Builder
 	b.WriteString(pick(r, schemes))
 	b.WriteString("://")
@@ -114,7 +198,9 @@ func genURI(r *rand.Rand) string {
 			b.WriteString(pick(r, userinfos))
 			b.WriteByte('@')
 		}
-		if r.Intn(3) == 0 {
+		if hk := r.Intn(10); hk < 2 {
+			b.WriteString(genEncHost(r))
+		} else if hk < 5 {
 			b.WriteString(pick(r, hosts))
 		} else {
 			b.WriteString(hosts[r.Intn(24)]) // the mostly-acceptable front part of the list
@@ -368,6 +454,7 @@ func classOf(s string, fhOK, nuOK bool, sn snap, user bool) string {
 	rest := s[i+3:]
 	add(strings.Contains(rest, "%2e") || strings.Contains(rest, "%2E") || strings.Contains(rest, "/."), "dots")
 	add(strings.Contains(rest, "%zz") || strings.HasSuffix(rest, "%"), "badesc")
+	add(authorityHasEncodedDelimiter(s), "hostenc")
 	return strings.Join(f, ",")
 }
 
@@ -381,9 +468,10 @@ type finding struct {
 func TestC27(t *testing.T) {
 	r := mon.Start(t, "C27")
 	defer r.Finish()
-	r.Rule("case = absolute URI 'scheme://…' built component-wise (18 schemes incl. mixed case/invalid; userinfo; 70 hosts incl. IPv6 literals with/without zones, escaped and non-ASCII reg-names, invalid forms; ports; path/query/fragment of 0-8 hostile tokens: reserved characters, valid/invalid escapes, %2f %3f %23 %25, dot segments, non-ASCII, '://') or as a 1-9 token soup, plus one separator ('?', '#', '@', '/', ':', '%', '[' …) injected at a PRNG position in 1/5 of the cases; parsed with URI.Parse(nil, uri) on an object that is fresh (1/8), re-used from earlier cases (2/8), re-used and primed inside the case by an earlier parse with longer values in every argument slot, userinfo, fragment… with QueryArgs() materialised (3/8), or taken from AcquireURI, primed and released (2/8); queries end in key-only arguments ('…&debug', '…&flag&'); every re-parse goes into a fresh URI object. distinct = feature vector (accepted by fasthttp / net/url, scheme, host kind, port, userinfo, path/query/fragment features); non-trivial = fasthttp accepted the URI and it has a query, fragment, escape, userinfo, port, IPv6 literal or a non-root path")
+	r.Rule("case = absolute URI 'scheme://…' built component-wise (18 schemes incl. mixed case/invalid; userinfo; 70 hosts incl. IPv6 literals with/without zones, escaped and non-ASCII reg-names, invalid forms, plus (2/10) hosts with percent-encoded delimiters/ASCII (%3A %5B %5D %40 %2F %3F %23 %25xx %20…, fixed list or 1-5 atoms); 1/12 of the inputs are produced by SetScheme/SetHost|SetHostBytes/SetPath/SetQueryString/SetHash + String(); ports; path/query/fragment of 0-8 hostile tokens: reserved characters, valid/invalid escapes, %2f %3f %23 %25, dot segments, non-ASCII, '://') or as a 1-9 token soup, plus one separator ('?', '#', '@', '/', ':', '%', '[' …) injected at a PRNG position in 1/5 of the cases; parsed with URI.Parse(nil, uri) on an object that is fresh (1/8), re-used from earlier cases (2/8), re-used and primed inside the case by an earlier parse with longer values in every argument slot, userinfo, fragment… with QueryArgs() materialised (3/8), or taken from AcquireURI, primed and released (2/8); queries end in key-only arguments ('…&debug', '…&flag&'); every re-parse goes into a fresh URI object. distinct = feature vector (accepted by fasthttp / net/url, scheme, host kind, port, userinfo, path/query/fragment features); non-trivial = fasthttp accepted the URI and it has a query, fragment, escape, userinfo, port, IPv6 literal or a non-root path")
 	r.Assume("net/url.Parse (Go stdlib of the toolchain in use) is the independent reference for host and raw query; hosts are compared after ASCII lower-casing of net/url's value")
 	r.Assume("hosts whose decoded form contains a literal '%' are excluded from the re-parse monitor as the statement says (events skipped_host_literal_percent); userinfo is not part of FullURI() and is not compared; 'query arguments' = ordered (key,value) list the ORIGINAL object's QueryArgs() reports through VisitAll plus Peek of every key, compared with what a fresh URI object parses from the serialisation")
+	r.Assume("inputs with escaped ASCII in the host are rejected by URI.Parse on the pinned tree (host_encoded_ascii_accepted counts the accepted ones, mostly %25 forms); rejection is never judged, only an accepted URI whose serialisation is rejected or differs")
 	r.Assume("RequestURI() is re-parsed with URI.Parse(host, requestURI) where host is the parsed URI's Host()")
 
 	n := r.N(1_000_000, 40_000_000)
@@ -439,6 +527,10 @@ func TestC27(t *testing.T) {
 					defer func() { fasthttp.ReleaseURI(pooled); u = keep }()
 					ev["obj_pooled_primed"]++
 				}
+				encHost := authorityHasEncodedDelimiter(s)
+				if encHost {
+					ev["host_encoded_ascii_inputs"]++
+				}
 				err := u.Parse(nil, []byte(s))
 				pu, perr := url.Parse(s)
 				nuOK = perr == nil
@@ -451,6 +543,9 @@ func TestC27(t *testing.T) {
 				}
 				fhOK = true
 				ev["fasthttp_accepted"]++
+				if encHost {
+					ev["host_encoded_ascii_accepted"]++
+				}
 				sn = snapshot(u)
 				user = len(u.Username()) > 0 || len(u.Password()) > 0
 
@@ -475,6 +570,10 @@ func TestC27(t *testing.T) {
 				if strings.IndexByte(sn.Host, '%') >= 0 {
 					ev["skipped_host_literal_percent"]++
 					return
+				}
+				encSuffix := ""
+				if encHost {
+					encSuffix = "-host-written-with-escaped-ascii"
 				}
 				cmp := func(stage string, got, want snap, withQuery bool) {
 					if got.Scheme != want.Scheme {
@@ -502,7 +601,7 @@ func TestC27(t *testing.T) {
 				fullOK, reqOK := false, false
 				u2 := &fasthttp.URI{}
 				if err := u2.Parse(nil, []byte(full)); err != nil {
-					fs = append(fs, finding{"fulluri-rejected-" + errClass(err), fmt.Sprintf("%q: FullURI()=%q is rejected: %v", s, full, err), map[string]any{"input": s, "full": full, "err": err.Error()}})
+					fs = append(fs, finding{"fulluri-rejected-" + errClass(err) + encSuffix, fmt.Sprintf("%q: FullURI()=%q is rejected: %v", s, full, err), map[string]any{"input": s, "full": full, "err": err.Error()}})
 				} else {
 					fullOK = true
 					ev["fulluri_reparsed"]++
@@ -511,7 +610,7 @@ func TestC27(t *testing.T) {
 				}
 				u2 = &fasthttp.URI{}
 				if err := u2.Parse([]byte(sn.Host), []byte(reqURI)); err != nil {
-					fs = append(fs, finding{"requesturi-rejected-" + errClass(err), fmt.Sprintf("%q: RequestURI()=%q with host %q is rejected: %v", s, reqURI, sn.Host, err), map[string]any{"input": s, "request_uri": reqURI, "host": sn.Host, "err": err.Error()}})
+					fs = append(fs, finding{"requesturi-rejected-" + errClass(err) + encSuffix, fmt.Sprintf("%q: RequestURI()=%q with host %q is rejected: %v", s, reqURI, sn.Host, err), map[string]any{"input": s, "request_uri": reqURI, "host": sn.Host, "err": err.Error()}})
 				} else {
 					reqOK = true
 					ev["requesturi_reparsed"]++
@@ -547,7 +646,7 @@ func TestC27(t *testing.T) {
 				req2 := string(u.RequestURI())
 				u2 = &fasthttp.URI{}
 				if err := u2.Parse(nil, []byte(full2)); err != nil {
-					fs = append(fs, finding{"fulluri-args-rejected-" + errClass(err), fmt.Sprintf("%q: FullURI() after QueryArgs()=%q is rejected: %v", s, full2, err), map[string]any{"input": s, "full": full2, "err": err.Error()}})
+					fs = append(fs, finding{"fulluri-args-rejected-" + errClass(err) + encSuffix, fmt.Sprintf("%q: FullURI() after QueryArgs()=%q is rejected: %v", s, full2, err), map[string]any{"input": s, "full": full2, "err": err.Error()}})
 				} else {
 					ev["fulluri_args_reparsed"]++
 					cmp("fulluri-args", snapshot(u2), sn, false)
@@ -558,7 +657,7 @@ func TestC27(t *testing.T) {
 				}
 				u2 = &fasthttp.URI{}
 				if err := u2.Parse([]byte(sn.Host), []byte(req2)); err != nil {
-					fs = append(fs, finding{"requesturi-args-rejected-" + errClass(err), fmt.Sprintf("%q: RequestURI() after QueryArgs()=%q is rejected: %v", s, req2, err), map[string]any{"input": s, "request_uri": req2, "err": err.Error()}})
+					fs = append(fs, finding{"requesturi-args-rejected-" + errClass(err) + encSuffix, fmt.Sprintf("%q: RequestURI() after QueryArgs()=%q is rejected: %v", s, req2, err), map[string]any{"input": s, "request_uri": req2, "err": err.Error()}})
 				} else {
 					ev["requesturi_args_reparsed"]++
 					if p := string(u2.Path()); p != sn.Path {
@@ -601,14 +700,15 @@ func TestC27(t *testing.T) {
 			r.Event(k, v)
 		}
 	})
-	r.Require("fasthttp_accepted", n/4)
-	r.Require("fulluri_reparsed", n/5)
-	r.Require("requesturi_reparsed", n/5)
-	r.Require("fulluri_args_reparsed", n/5)
-	r.Require("neturl_compared", n/10)
+	r.Require("fasthttp_accepted", n/8)
+	r.Require("fulluri_reparsed", n/10)
+	r.Require("requesturi_reparsed", n/10)
+	r.Require("fulluri_args_reparsed", n/10)
+	r.Require("neturl_compared", n/15)
 	r.Require("skipped_host_literal_percent", 1)
-	r.Require("with_query_args", n/20)
-	r.Require("key_only_last_arg", n/100)
-	r.Require("obj_reused_primed", n/10)
-	r.Require("obj_pooled_primed", n/20)
+	r.Require("with_query_args", n/30)
+	r.Require("key_only_last_arg", n/200)
+	r.Require("host_encoded_ascii_inputs", n/20)
+	r.Require("obj_reused_primed", n/8)
+	r.Require("obj_pooled_primed", n/10)
 }
